@@ -400,3 +400,48 @@ func edgePeriod(mode, name string) (bool, string) {
 	}
 	return false, ""
 }
+
+// genOffered returns an address string that is *offered* to the server in a RCPT TO although the
+// harness' own policy object is expected to refuse it (added after seeded change C04-8): the
+// property quantifies over every string a RCPT TO accepts, and whether a string is accepted is the
+// server's decision, not the decision of policy.NewRecipient called by the harness.  Shapes: a
+// local part without a domain (RFC 5321 4.5.1 "Postmaster", james+news, quoted, escaped), with an
+// empty domain, a domain without local part, a source route in front of a bare local part,
+// unfiltered byte-level mutants, over-long local parts and invalid domains.
+func genOffered(r *fw.Rand) (text, class string) {
+	switch r.Weighted([]int{6, 4, 2, 1, 1, 3, 1, 1}) {
+	case 0:
+		l, _, cls, _ := genLocal(r)
+		return l, "bare/" + cls
+	case 1:
+		w := gen.RandCase(r, r.Pick([]string{"postmaster", "abuse", "root", "webmaster", "james", "first.last"}))
+		if r.Chance(1, 3) {
+			w += "+" + genExt(r)
+		}
+		return w, "bare/well-known"
+	case 2:
+		l, _, cls, _ := genLocal(r)
+		return l + "@", "empty-domain/" + cls
+	case 3:
+		d, cls := genDomain(r)
+		return "@" + d, "empty-local@" + cls
+	case 4:
+		l, _, cls, _ := genLocal(r)
+		return genRoute(r) + l, "route+bare/" + cls
+	case 5:
+		a := genAddr(r)
+		return mutate(r, a.Text), "mut:" + a.Class
+	case 6:
+		d, cls := genDomain(r)
+		return r.Letters(r.Range(65, 80), lower+upper+digits+"+.") + "@" + d, "long-local@" + cls
+	default:
+		l, _, cls, _ := genLocal(r)
+		return l + "@" + r.Pick([]string{"-lead.test", "dou..ble.test", ".start.test", "bad!char.test", "[300.1.1.1]", "[]", "a b.test", "host"}), "odd-domain/" + cls
+	}
+}
+
+// writable reports whether s reaches the RCPT handler as written: "RCPT TO:<s>" is one command
+// line and the handler's trimming of '<', '>' and ' ' leaves s unchanged.
+func writable(s string) bool {
+	return !strings.ContainsAny(s, "\r\n") && strings.Trim(s, "<> ") == s
+}
